@@ -31,12 +31,10 @@ EXPLANATION = (
 )
 
 ORDER_SENSITIVE_CALLS = {"list", "tuple", "enumerate", "zip", "iter", "next", "reversed", "map", "filter"}
-FORBIDDEN_PREFIX = ("random.", "time.", "datetime.", "uuid.", "secrets.", "threading.", "multiprocessing.", "concurrent.", "asyncio.")
-FORBIDDEN_EXACT = {"os.urandom", "os.getpid", "os.getppid", "id", "hash", "os.getenv", "os.environ.get", "os.listdir", "os.scandir", "os.walk", "glob.glob", "glob.iglob", "os.getcwd", "os.times", "tempfile.mkdtemp", "tempfile.mkstemp", "object.__hash__"}
-ALLOW = {
-    ("FastaIndex.tmp_file_for", "os.getpid"): "names the temporary file of the atomic cache publication (C15.R4); the name never reaches an output",
-    ("page_messages", "os.environ.setdefault"): "environment *write* configuring the pager for error display only",
-}
+FORBIDDEN_PREFIX = ("random.", "time.", "datetime.", "uuid.", "secrets.")
+CONCURRENCY_PREFIX = ("threading.", "multiprocessing.", "concurrent.", "asyncio.")
+LISTING_FUNCS = {"os.listdir", "os.scandir", "os.walk", "glob.glob", "glob.iglob"}
+FORBIDDEN_EXACT = {"os.urandom", "os.getpid", "os.getppid", "id", "hash", "os.getenv", "os.environ.get", "os.getcwd", "os.times", "tempfile.mkdtemp", "tempfile.mkstemp", "object.__hash__"}
 
 
 def set_typed(repo: Repo):
@@ -197,7 +195,57 @@ def run(repo: Repo, L: Ledger, tier: str):
         L.ok("R1", "all", "no unsorted order-sensitive use of a set", "")
 
     # ------------------------------------------------------------------ R2
+    # value sources (pid, clock, random, environment ...): followed by the taint tracker -- a finding only when the value
+    # reaches something that is written; directory listings: only their *order* is arbitrary -- sorted, or consumed by an
+    # order-insensitive loop; concurrency primitives: not modelled (no verdict)
+    from ..taint import track
+
     n_calls = 0
+
+    def classify(full):
+        if full.startswith(CONCURRENCY_PREFIX):
+            return "concurrency"
+        if full in LISTING_FUNCS:
+            return "listing"
+        if full.startswith(FORBIDDEN_PREFIX) or full in FORBIDDEN_EXACT or (full.startswith("os.environ") and not full.endswith(("setdefault", "__setitem__"))):
+            return "value"
+        return None
+
+    def judge_value(fn, mod, c, full, where):
+        inst = f"{where}:{full}"
+        flow = track(repo, fn, c, module=mod)
+        if flow.sinks:
+            L.fail("R2", inst, f"the value of nondeterminism source '{full}' reaches an output: {flow.sinks[0][0]} (at {flow.sinks[0][1]})", fn.loc(c) if fn else f"{mod.relpath}:{c.lineno}")
+        elif flow.escapes:
+            raise AnalysisError(f"C17.R2 {inst}: the value of '{full}' goes where the taint tracker does not follow ({flow.escapes[0][0]} at {flow.escapes[0][1]}): no verdict")
+        else:
+            L.ok("R2", inst, f"value stays within scratch-file names / diagnostics ({flow.places} places followed; neutral uses: {sorted(set(flow.neutral))[:4]})", fn.loc(c) if fn else f"{mod.relpath}:{c.lineno}")
+
+    def judge_listing(fn, c, full, where):
+        inst = f"{where}:{full}"
+        par = getattr(c, "_parent", None)
+        if isinstance(par, ast.Call) and dotted(par.func) in ("sorted", "set", "frozenset", "len", "any", "all"):
+            L.ok("R2", inst, f"listing consumed by {dotted(par.func)}()", fn.loc(c))
+            return
+        loop = None
+        if isinstance(par, ast.For) and par.iter is c:
+            loop = par
+        elif isinstance(par, ast.withitem) and isinstance(par.optional_vars, ast.Name):
+            w = getattr(par, "_parent", None)
+            loops = [n for n in walk_shallow(w) if isinstance(n, ast.For) and is_name(n.iter, par.optional_vars.id)] if w is not None else []
+            others = [n for n in walk_shallow(w) if isinstance(n, ast.Name) and n.id == par.optional_vars.id and isinstance(n.ctx, ast.Load)] if w is not None else []
+            if len(loops) == 1 and len(others) == 1:
+                loop = loops[0]
+        if loop is None:
+            raise AnalysisError(f"C17.R2 {inst}: how the directory listing is consumed is not understood (neither sorted nor a plain loop)")
+        ok, why = _order_insensitive_loop(loop, keyed_ok=True)
+        if ok:
+            L.ok("R2", inst, "listing consumed by an order-insensitive loop", fn.loc(c))
+        elif "iteration order" in why or "yields" in why or "breaks on the first" in why:
+            L.fail("R2", inst, f"directory listing '{full}' is consumed in the order the file system returns it: {why}", fn.loc(c))
+        else:
+            raise AnalysisError(f"C17.R2 {inst}: order sensitivity of the loop over the listing not decided ({why})")
+
     for f in sorted(reach.values(), key=lambda x: x.qualname):
         for c in repo.calls_in(f):
             d = dotted(c.func)
@@ -209,27 +257,47 @@ def run(repo: Repo, L: Ledger, tier: str):
             if imp and imp != head:
                 full = imp + d[len(head):]
             n_calls += 1
-            bad = full.startswith(FORBIDDEN_PREFIX) or full in FORBIDDEN_EXACT or (full.startswith("os.environ") and not full.endswith(("setdefault", "__setitem__")))
+            kind = classify(full)
             if full in ("id", "hash") and (head in f.module.imports or head in f.params()):
-                bad = False
+                kind = None
             if full == "os.environ.setdefault":
-                bad = True
-            if not bad:
+                kind = "value"
+            if kind is None:
                 continue
-            key = (f.short, full)
-            if key in ALLOW:
-                L.ok("R2", f"{f.short}:{full}", "allow-listed: " + ALLOW[key], f.loc(c))
-                if full == "os.getpid":
-                    # the pid must stay inside the temporary's name: the function's only callers are the cache writers
-                    callers = {g.short for g, _ in repo.callers_of(f)}
-                    L.check(callers <= {"FastaIndex.write_index", "FastaIndex.write_assembly"}, "R2", f"{f.short}:callers", "pid-derived name used only by the cache writers", f"pid-derived name is also used by {sorted(callers)}", f.loc())
+            if kind == "concurrency":
+                raise AnalysisError(f"C17.R2 {f.short}: concurrency primitive '{full}' is reachable from the command line tools: scheduling effects are not modelled")
+            if kind == "listing":
+                judge_listing(f, c, full, f.short)
             else:
-                L.fail("R2", f"{f.short}:{full}", f"nondeterminism source '{full}' is reachable from the command line tools", f.loc(c))
+                judge_value(f, f.module, c, full, f.short)
         for n in walk_shallow(f.node):
             if isinstance(n, ast.Subscript) and norm(n.value) == "os.environ" and isinstance(n.ctx, ast.Load):
-                L.fail("R2", f"{f.short}:os.environ[]", "environment variable read reachable from the CLIs", f.loc(n))
-            if isinstance(n, ast.Call) and isinstance(n.func, ast.Attribute) and n.func.attr in ("iterdir", "glob", "rglob") and not _wrapped_sorted(n):
-                L.fail("R2", f"{f.short}:{n.func.attr}", "unsorted directory listing reachable from the CLIs", f.loc(n))
+                judge_value(f, f.module, n, "os.environ[]", f.short)
+            if isinstance(n, ast.Call) and isinstance(n.func, ast.Attribute) and n.func.attr in ("iterdir", "glob", "rglob") and dotted(n.func) not in LISTING_FUNCS:
+                judge_listing(f, n, "Path." + n.func.attr, f.short)
+    # sources evaluated when a module is imported (module and class level statements)
+    for m in repo.modules.values():
+        if not any(g.module is m for g in reach.values()):
+            continue
+        stack = list(m.tree.body)
+        while stack:
+            st = stack.pop()
+            if isinstance(st, ast.FunctionDef | ast.AsyncFunctionDef):
+                continue
+            if isinstance(st, ast.ClassDef):
+                stack.extend(st.body)
+                continue
+            for c in [x for x in ast.walk(st) if isinstance(x, ast.Call)]:
+                d = dotted(c.func)
+                if not d:
+                    continue
+                head = d.split(".")[0]
+                imp = m.imports.get(head)
+                full = imp + d[len(head):] if imp and imp != head else d
+                kind = classify(full)
+                if kind in ("value",) and full not in ("id", "hash"):
+                    n_calls += 1
+                    judge_value(None, m, c, full, m.name + ":<import time>")
     L.floor("R2", "resolved call sites scanned", n_calls, 150)
     L.ok("R2", "reachable", f"{n_calls} dotted call sites in {len(reach)} reachable functions scanned", "")
 
@@ -278,7 +346,7 @@ def _wrapped_sorted(n):
     return isinstance(p, ast.Call) and dotted(p.func) == "sorted"
 
 
-def _order_insensitive_loop(loop: ast.For):
+def _order_insensitive_loop(loop: ast.For, keyed_ok: bool = False):
     """Every store in the body to a name/attribute is (a) a constant, or (b) conflict-guarded:
     in the same branch chain an `if <target> ...: raise` precedes it / it sits in the else of
     `if <target>: raise`."""
@@ -305,6 +373,8 @@ def _order_insensitive_loop(loop: ast.For):
             txt = norm(t)
             if try_fold(n.value, default=NotImplemented) is not NotImplemented:
                 continue  # constant
+            if keyed_ok and isinstance(t, ast.Subscript) and elem_names & {x.id for x in ast.walk(t.slice) if isinstance(x, ast.Name)}:
+                continue  # a table keyed by the element: which element comes first does not matter for distinct elements
             if not _conflict_guarded(n, txt, loop):
                 return False, f"'{norm(n)[:60]}' stores an element-dependent value without a guard that raises on a second, different value"
     return True, ""
@@ -342,6 +412,50 @@ def _conflict_guarded(stmt, target_txt, loop):
                 if isinstance(s, ast.If) and target_txt in {norm(x) for x in ast.walk(s.test)} and any(isinstance(b, ast.Raise) for b in s.body):
                     return True
         node = par
+    return False
+
+
+def _validated_reads(f: Func, gnames: set) -> bool:
+    """Does f compare what it reads back from the global table with data that does not come from the table (beyond testing
+    for a miss)?"""
+    def mentions(e, names):
+        return any((isinstance(x, ast.Name) and x.id in names) or (isinstance(x, ast.Attribute | ast.Name) and (dotted(x) or "") in names) for x in ast.walk(e))
+
+    derived = set()
+    grew = True
+    while grew:
+        grew = False
+        for n in walk_shallow(f.node):
+            val = tg = None
+            if isinstance(n, ast.Assign):
+                val, tg = n.value, n.targets
+            elif isinstance(n, ast.NamedExpr):
+                val, tg = n.value, [n.target]
+            if val is None:
+                continue
+            if mentions(val, gnames) or mentions(val, derived):
+                for t in tg:
+                    for x in ast.walk(t):
+                        if isinstance(x, ast.Name) and isinstance(x.ctx, ast.Store) and x.id not in derived:
+                            derived.add(x.id)
+                            grew = True
+    if not derived:
+        return False
+    tests = [n.test for n in walk_shallow(f.node) if isinstance(n, ast.If | ast.IfExp | ast.While | ast.Assert)]
+    for t in tests:
+        for c in ast.walk(t):
+            if isinstance(c, ast.Compare):
+                ops = [c.left, *c.comparators]
+                from_tbl = [o for o in ops if mentions(o, derived)]
+                other = [o for o in ops if not mentions(o, derived) and not mentions(o, gnames) and not isinstance(o, ast.Constant)]
+                if from_tbl and other:
+                    return True
+            elif isinstance(c, ast.Call) and not mentions(c.func, gnames):
+                args = [*c.args, *[k.value for k in c.keywords]]
+                from_tbl = [o for o in args if mentions(o, derived)]
+                other = [o for o in args if not mentions(o, derived) and not isinstance(o, ast.Constant)]
+                if from_tbl and other:
+                    return True
     return False
 
 
@@ -409,6 +523,14 @@ def _r3(repo: Repo, L: Ledger):
                         for t in tg:
                             if isinstance(t, ast.Subscript) and isinstance(t.value, ast.Name) and t.value.id in aliases:
                                 bad.append(f"{f.short}: {norm(x)[:50]} (alias of {name})")
+        if bad:
+            # a cache whose hits are validated against the current inputs before use is outside what is decided here
+            for f in repo.functions.values():
+                if not any(b.startswith(f.short + ":") for b in bad):
+                    continue
+                gname = {f"{cname}.{name}", f"self.{name}", f"cls.{name}"} if cname else {name}
+                if _validated_reads(f, gname):
+                    raise AnalysisError(f"C17.R3 {cname + '.' if cname else modname + '.'}{name}: process-global table is filled by {f.short}, which validates what it reads back from it against current data before use: whether a hit can be stale is not decided")
         L.check(not bad, "R3", f"{cname + '.' if cname else modname + '.'}{name}", "shared table never mutated", f"process-global mutable object is mutated: {bad[:2]} — a second invocation in the same process sees the first one's state", modname)
     L.floor("R3", "module/class-level mutable objects", n_mut, 2)
     # mutable defaults
@@ -426,9 +548,15 @@ def _r3(repo: Repo, L: Ledger):
         inst = f"{f.short}:cache"
         # pure: body reads only its parameters / constants / modules
         free = set()
-        for n in walk_shallow(f.node):
-            if isinstance(n, ast.Name) and isinstance(n.ctx, ast.Load) and n.id not in f.params() and n.id not in f.module.imports and n.id not in ("super", "str", "int", "bytes", "string", "cls") and n.id not in f.module.classes:
-                free.add(n.id)
+        locals_ = {x.id for x in walk_shallow(f.node) if isinstance(x, ast.Name) and isinstance(x.ctx, ast.Store)}
+        for n in [x for st in f.node.body for x in [st, *walk_shallow(st)]]:
+            if isinstance(n, ast.Name) and isinstance(n.ctx, ast.Load) and n.id not in f.params() and n.id not in f.module.imports and n.id not in f.module.classes and n.id not in locals_:
+                # state = a module-level name that holds a mutable object or is rebound by some function (`global`)
+                mv = f.module.assigns.get(n.id)
+                mutable = isinstance(mv, ast.Dict | ast.List | ast.Set | ast.DictComp | ast.ListComp | ast.SetComp) or (isinstance(mv, ast.Call) and dotted(mv.func) in ("dict", "list", "set", "defaultdict", "collections.defaultdict", "OrderedDict", "bytearray", "io.BytesIO", "BytesIO", "io.StringIO", "StringIO"))
+                rebound = any(n.id in gl.names for g in f.module.functions.values() for gl in walk_shallow(g.node) if isinstance(gl, ast.Global))
+                if mutable or rebound:
+                    free.add(n.id)
             if isinstance(n, ast.Attribute) and is_name(n.value, "self"):
                 free.add("self." + n.attr)
         L.check(not free, "R3", inst, "memoised function depends on its arguments only", f"memoised function reads {sorted(free)}: results cached from one invocation leak into the next", f.loc())
